@@ -125,3 +125,6 @@ Print Assumptions C15_report_wrong_type_no_record.
 Print Assumptions C15_report_no_topic_no_record.
 Print Assumptions C15_spec_sound.
 Print Assumptions C15_seq_spec_sound.
+Print Assumptions C15_override_example.
+Print Assumptions C15_report_example.
+Print Assumptions C15_outside_domain.
